@@ -269,10 +269,10 @@ func sliceBound(fr *frame, pos token.Pos, v value, lo, limit int64, what string)
 	if s, ok := v.(*symv); ok {
 		safe := "(and (bvsge " + s.term + " " + bvLit(uint64(lo), s.bits) + ") (bvsle " + s.term + " " + bvLit(uint64(limit), s.bits) + "))"
 		ex.implicitAssert(fr, pos, what, safe)
-		if limit-lo > 64 {
-			panic(engineFault{"symbolic slice bound over a range of more than 64"})
+		if limit-lo > 2048 {
+			panic(engineFault{"symbolic slice bound over a range of more than 2048"})
 		}
-		return ex.concretize(fr, s, true, int(limit-lo)+1)
+		return ex.concretizeRange(fr, s, lo, limit)
 	}
 	k := asInt64(v)
 	if u, isU := v.(uint64); isU && u > 1<<62 {
@@ -1059,8 +1059,10 @@ func callBuiltin(caller *frame, fn *ssa.Builtin, args []value) value {
 		case string:
 			return len(x)
 		case symstr:
-			if hasPoison(x) {
-				panic(engineFault{"length of the formatted text of a symbolic number (formatting is stubbed)"})
+			if hasPoison(x) && caller != nil {
+				// the opaque text of a formatted symbolic number counts as one opaque byte: it can be
+				// moved and copied; inspecting it ends the path as undecided
+				caller.i.ex.noteAssumption("formatting stub: the length of an opaque formatted number was taken (counted as one opaque byte)")
 			}
 			return len(x)
 		case array:
